@@ -19,6 +19,8 @@ from .c03 import raise_guards
 
 
 def run(chk, ctx) -> None:
+    from .helpers import extremum_helpers
+    extremum_helpers(chk, ctx, 'C12.helpers')
     _default(chk, ctx)
     _kill(chk, ctx)
     _coverage(chk, ctx)
